@@ -33,6 +33,11 @@ type RegOp struct {
 	// Tolerate (get | getE | create): the factory body ignores an error of this operation and
 	// carries on (user code that looks something up and copes with its absence)
 	Tolerate bool `json:"tol,omitempty"`
+	// Direct (create): get-or-create without looking the name up first
+	Direct bool `json:"direct,omitempty"`
+	// Other (pub): what the factory publishes under its own name meanwhile is an interim object,
+	// not the one it completes with
+	Other bool `json:"other,omitempty"`
 }
 
 type RegNode struct {
@@ -84,7 +89,7 @@ func genRegTree(r *rand.Rand) *RegTree {
 			case x < 6:
 				if r.IntN(4) == 0 {
 					// the factory publishes the object it is building under its own name itself
-					n.Ops = append(n.Ops, RegOp{Kind: "pub", Name: name})
+					n.Ops = append(n.Ops, RegOp{Kind: "pub", Name: name, Other: r.IntN(3) == 0})
 				} else if r.IntN(3) == 0 {
 					// the factory registers its early-reference factory once more (same product)
 					n.Ops = append(n.Ops, RegOp{Kind: "addF", Name: name})
@@ -100,7 +105,11 @@ func genRegTree(r *rand.Rand) *RegTree {
 						onStack = true
 					}
 				}
-				if onStack || depth >= 4 || t.Nodes > 12 {
+				if onStack && depth < 4 && t.Nodes <= 12 && r.IntN(3) == 0 {
+					// get-or-create of a name whose creation is under way (user code that does not look
+					// the name up first): refused, the factory it brings along is never run
+					n.Ops = append(n.Ops, RegOp{Kind: "create", Name: target, Child: gen(target, depth+1, stack), Tolerate: tol || r.IntN(2) == 0, Direct: r.IntN(2) == 0})
+				} else if onStack || depth >= 4 || t.Nodes > 12 {
 					n.Ops = append(n.Ops, RegOp{Kind: "getE", Name: target, Tolerate: tol})
 				} else {
 					n.Ops = append(n.Ops, RegOp{Kind: "create", Name: target, Child: gen(target, depth+1, stack), Tolerate: tol})
@@ -141,16 +150,18 @@ func runRegCase(c *regCase) (calls []model.RegCall, panicMsg string) {
 		m.SetName(name)
 		return m
 	}
-	var create func(n *RegNode) (*component_definition.Meta, error)
-	create = func(n *RegNode) (*component_definition.Meta, error) {
+	var create func(n *RegNode, direct bool) (*component_definition.Meta, error)
+	create = func(n *RegNode, direct bool) (*component_definition.Meta, error) {
 		// like the real factory: look up first, create only when nothing is cached
-		if m, err := tr.GetSingleton(n.Name, true); err != nil {
+		if m, err := tr.GetSingleton(n.Name, true); direct {
+		} else if err != nil {
 			return nil, err
 		} else if m != nil {
 			return m, nil
 		}
 		return tr.GetSingletonOrCreateByFactory(n.Name, container.FuncSingletonFactory(func() (*component_definition.Meta, error) {
 			final := newMeta(n.Name)
+			interim := false
 			for i, op := range n.Ops {
 				if c.FailAt == n.ID && c.FailPos == i {
 					if c.FailRef {
@@ -181,9 +192,14 @@ func runRegCase(c *regCase) (calls []model.RegCall, panicMsg string) {
 				case "inC":
 					tr.IsSingletonCurrentlyInCreation(op.Name)
 				case "pub":
-					tr.AddSingleton(n.Name, final)
+					if op.Other {
+						interim = true
+						tr.AddSingleton(n.Name, newMeta(n.Name))
+					} else {
+						tr.AddSingleton(n.Name, final)
+					}
 				case "create":
-					if _, err := create(op.Child); err != nil && !op.Tolerate {
+					if _, err := create(op.Child, op.Direct); err != nil && !op.Tolerate {
 						return nil, err
 					}
 				}
@@ -195,14 +211,14 @@ func runRegCase(c *regCase) (calls []model.RegCall, panicMsg string) {
 				return nil, errRegInjected
 			}
 			// like the real factory: adopt the early reference if one was handed out
-			if early, err := tr.GetSingleton(n.Name, false); err == nil && early != nil {
+			if early, err := tr.GetSingleton(n.Name, false); err == nil && early != nil && !interim {
 				return early, nil
 			}
 			return final, nil
 		}))
 	}
 	for _, root := range c.Tree.Roots {
-		_, _ = create(root)
+		_, _ = create(root, false)
 	}
 	// continuation: lookups, re-creates, lookups
 	for round := 0; round < 2; round++ {
@@ -222,7 +238,7 @@ func runRegCase(c *regCase) (calls []model.RegCall, panicMsg string) {
 			saved := c.FailAt
 			c.FailAt = -1
 			for _, name := range c.Tree.Names {
-				_, _ = create(&RegNode{ID: -2, Name: name, Ops: []RegOp{{Kind: "addF", Name: name}}})
+				_, _ = create(&RegNode{ID: -2, Name: name, Ops: []RegOp{{Kind: "addF", Name: name}}}, false)
 			}
 			c.FailAt = saved
 		}
